@@ -630,7 +630,10 @@ def run(ctx):
         "(c) the store is dominated by range tests of tangential, axial and TOF index against the output and bin_value>0 is the "
         "first acceptance test; (d) the amount added is bin_value*event_increment with the documented prompt/delayed increment and "
         "the event budget decreases by the same increment; (e) each allocated batch is saved and freed with the same window on every "
-        "normal path. (g) list-mode subsets select events by the residue class of the basic view. NOT decided: event->detector "
+        "normal path. (g) list-mode subsets select events by the residue class of the basic view; (c') the value is known positive at the "
+        "store, (l) an event that was not decoded into the caller's bin is marked rejected, (m) setters of what set_up() derives state from "
+        "clear the set-up flag, (k) the list-mode objective's event cache is re-made by every caching set-up or kept only under flags all "
+        "input setters clear. NOT decided: event->detector "
         "decoding per scanner, time-frame arithmetic, frame additivity, LM gradient = sinogram gradient (numerical); the additive "
         "caching loop for TOF data (see DESIGN.md, candidate F7, not demonstrable with the data available here)."
     )
